@@ -237,8 +237,11 @@ func VerifC02Replication() {
 				c.caughtUp[fi] = false
 				vCover("shrink")
 			} else {
-				// replicator.tick: caught up recently and holding everything committed so far
-				if !c.caughtUp[fi] || c.r[fi].following != c.epoch || c.lastReq[fi] < L.log.HighWatermark() {
+				// replicator.start: a replica is proposed for the ISR by the request
+				// that finds it at the leader's log end (so it holds everything
+				// committed). The proposal and its application by the controller
+				// are one step here: nothing is appended in between.
+				if !c.caughtUp[fi] || c.r[fi].following != c.epoch || c.lastReq[fi] < L.log.NewestOffset() {
 					return
 				}
 				c.isr[fi] = true
